@@ -42,6 +42,8 @@ type FakeRT struct {
 	StaleProbes bool
 	closed      bool
 	closes  int
+	// CloseDelay makes Close take this long (a Transport that has connections to shut down).
+	CloseDelay time.Duration
 }
 
 // NewFakeRT returns a fake transport with every address up and zero latency.
@@ -199,6 +201,9 @@ func (f *FakeRT) Ping(addr string) error { return f.do(addr, "ping", nil) }
 
 // Close implements rpc.RoundTripper.
 func (f *FakeRT) Close() error {
+	if f.CloseDelay > 0 {
+		time.Sleep(f.CloseDelay)
+	}
 	f.mu.Lock()
 	f.closed = true
 	f.closes++
